@@ -4,12 +4,14 @@ import ConduitModel.Driver.Arbiter
 import ConduitModel.Driver.Ctl
 import ConduitModel.Driver.Prov
 import ConduitModel.Driver.Live
+import ConduitModel.Driver.Gate
 import ConduitModel.Driver.Errs
 import ConduitModel.Driver.Egress
 import ConduitModel.Driver.ErrPaths
 import ConduitModel.Driver.AckErr
 import ConduitModel.Driver.ProcSvc
 import ConduitModel.Driver.TreeBuild
+import ConduitModel.Driver.Rebuild
 import ConduitModel.Driver.Registry
 import ConduitModel.Driver.Codec
 import ConduitModel.Driver.Lifecycle
@@ -35,6 +37,8 @@ def component (name : String) : Option (String → String) :=
   | "crud" => some crudLine
   | "import" => some importLine
   | "live" => some liveLine
+  | "locks" => some locksLine
+  | "apigate" => some apigateLine
   | "errtree" => some errtreeLine
   | "errfmt" => some errfmtLine
   | "errsite" => some errsiteLine
@@ -68,6 +72,7 @@ def component (name : String) : Option (String → String) :=
   | "treeshape" => some TreeBuildD.treeshapeLine
   | "appendtoend" => some TreeBuildD.appendtoendLine
   | "sharedsink" => some SharedSinkD.sharedsinkLine
+  | "rebuild" => some RebuildD.rebuildLine
   | _ => none
 
 partial def loop (h : IO.FS.Stream) (out : IO.FS.Stream) (f : String → String) : IO Unit := do
